@@ -133,6 +133,7 @@ func H_SYS_PowerFailure(v *verifrt.T) {
 		}
 	}
 	var stg *stage.Stage
+	faults := v.Param("FAULTS", 0) // failing requests per run
 	run := func() {
 		rlog := log.NewFileIO(filepath.Join(root, "rlog"), nil, nil, true)
 		stg = stage.New("src", filepath.Join(root, "stage"), finalDir, rlog, nil, nil)
@@ -149,7 +150,7 @@ func H_SYS_PowerFailure(v *verifrt.T) {
 			"/partials":      srv.handleValidate(nethttp.HandlerFunc(srv.routePartials)),
 		}
 		hc := &Client{SourceName: "src", TargetHost: "h", TargetPort: 1992, PartialsDecoder: stage.ReadCompanions}
-		hc.client = newBandwidthLoggingClient(&vLoop{h: nethttp.HandlerFunc(func(w nethttp.ResponseWriter, r *nethttp.Request) {
+		hc.client = newBandwidthLoggingClient(&vLoop{v: v, faults: faults, h: nethttp.HandlerFunc(func(w nethttp.ResponseWriter, r *nethttp.Request) {
 			if h, ok := routes[r.URL.Path]; ok {
 				h.ServeHTTP(w, r)
 				return
@@ -199,7 +200,7 @@ func H_SYS_PowerFailure(v *verifrt.T) {
 		v.Reach("power-failure")
 	} else {
 		v.Reach("no-failure")
-		v.Assert(k > 0 || v.FSMutations()-m0 <= v.Param("MAXK", 40), "bound: MAXK covers every file-system call of a complete run")
+		v.Assert(k > 0 || v.Param("MAXK", 40) == 0 || v.FSMutations()-m0 <= v.Param("MAXK", 40), "bound: MAXK covers every file-system call of a complete run")
 		v.KillProcess()
 	}
 	consume()
